@@ -174,7 +174,7 @@ func (r *Runner) expect(ch chan Event, kinds ...string) (Event, bool) {
 		}
 		r.fail("disagreement", "harness: unexpected event from the store", fmt.Sprintf("got %s, want one of %v", e.Kind, kinds))
 		return e, false
-	case <-time.After(10 * time.Second):
+	case <-time.After(GateTimeout):
 		r.fail("disagreement", "harness: the store did not reach the expected gate", fmt.Sprintf("want one of %v", kinds))
 		return Event{}, false
 	}
@@ -266,7 +266,7 @@ func (r *Runner) advance(op *opState) (res opResult, finished, ok bool) {
 	case res := <-op.done:
 		op.park = nil
 		return res, true, true
-	case <-time.After(10 * time.Second):
+	case <-time.After(GateTimeout):
 		r.fail("disagreement", "harness: an operation neither finished nor reached a gate", op.kind)
 		return opResult{}, false, false
 	}
@@ -281,3 +281,7 @@ func (r *Runner) dataReply(obj int, res opResult) string {
 	}
 	return "data ?"
 }
+
+// GateTimeout bounds the wait for a goroutine of the store to reach its next gate (shrinking
+// lowers it: a shrunk script may ask for steps the store cannot take).
+var GateTimeout = 10 * time.Second
